@@ -28,8 +28,8 @@ Definition sset_eqb (a b : list series) : bool :=
 
 (* codes: 1 insert id, 3 ids by the show-series path, 5 ids by the select path (no reading matches), 6 series listing,
    7 tag-key listing, 8 tag-value listing *)
-Definition check_op (cur : bool) (tab : list (N * N)) (i : index) (o : cop) : index * list N :=
-  let slow := if cur then slow_current else slow_repaired in
+Definition check_op (cl cn : bool) (tab : list (N * N)) (i : index) (o : cop) : index * list N :=
+  let slow := if cl then slow_current else slow_repaired in
   let am := am_tab tab in
   match o with
   | CInsert s id => let (i', id') := insert slow i s in (i', if id' =? id then [] else [1])
@@ -38,7 +38,7 @@ Definition check_op (cur : bool) (tab : list (N * N)) (i : index) (o : cop) : in
   | CReopen b => (fst (step slow i (Reopen b)), [])
   | CQuery m e alts ids1 ids2 =>
       let T := postings (vis i) in
-      let p1 := if cur then search_ids_top_current am T m e else search_ids_repaired am T m e in
+      let p1 := if cn then search_ids_top_current am T m e else search_ids_repaired am T m e in
       (i, (if set_eqb p1 ids1 then [] else [3]) ++
           (if existsb (fun e' => set_eqb (search am T m e') ids2) (e :: alts) then [] else [5]))
   | CList m ss keys vals =>
@@ -47,19 +47,20 @@ Definition check_op (cur : bool) (tab : list (N * N)) (i : index) (o : cop) : in
           (if forallb (fun kv => set_eqb (list_tag_values (vis i) m (fst kv)) (snd kv)) vals then [] else [8]))
   end.
 
-Fixpoint check_ops (cur : bool) (tab : list (N * N)) (k : nat) (i : index) (os : list cop) : list (nat * N) :=
+(* cl: key lookup as today (flushed items only); cn: show-series path as today (nil = no constraint) *)
+Fixpoint check_ops (cl cn : bool) (tab : list (N * N)) (k : nat) (i : index) (os : list cop) : list (nat * N) :=
   match os with
   | [] => []
-  | o :: r => let (i', bad) := check_op cur tab i o in map (fun c => (k, c)) bad ++ check_ops cur tab (S k) i' r
+  | o :: r => let (i', bad) := check_op cl cn tab i o in map (fun c => (k, c)) bad ++ check_ops cl cn tab (S k) i' r
   end.
 
 Definition ccase := (N * list (N * N) * list cop)%type.   (* initial generator value, atom table, ops *)
-Definition check_case (cur : bool) (c : ccase) : list (nat * N) :=
-  check_ops cur (snd (fst c)) 0 (empty_index (fst (fst c))) (snd c).
+Definition check_case (cl cn : bool) (c : ccase) : list (nat * N) :=
+  check_ops cl cn (snd (fst c)) 0 (empty_index (fst (fst c))) (snd c).
 
-Fixpoint mismatches_from (cur : bool) (k : nat) (cs : list ccase) : list (nat * nat * N) :=
+Fixpoint mismatches_from (cl cn : bool) (k : nat) (cs : list ccase) : list (nat * nat * N) :=
   match cs with
   | [] => []
-  | c :: r => map (fun x => (k, fst x, snd x)) (check_case cur c) ++ mismatches_from cur (S k) r
+  | c :: r => map (fun x => (k, fst x, snd x)) (check_case cl cn c) ++ mismatches_from cl cn (S k) r
   end.
-Definition mismatches (cur : bool) := mismatches_from cur 0.
+Definition mismatches (cl cn : bool) := mismatches_from cl cn 0.
